@@ -268,6 +268,24 @@ def _join(p, args, kw):
 def _format(p, args, kw):
     if kw:
         raise Unsupported('str.format with keywords')
+    tmpl = args[0]
+    if isinstance(tmpl, StrV) and tmpl.value is not None:
+        # a literal template with plain auto-numbered fields only: '..{}..'.format(a, ..) IS the f-string f'..{a}..' (both are
+        # format(a, '') between the literal pieces) -- one normal form for the two spellings
+        import string
+        try:
+            fields = list(string.Formatter().parse(tmpl.value))
+        except ValueError:
+            fields = None
+        if fields is not None and all(f[1] is None or (f[1] == '' and f[2] == '' and f[3] is None) for f in fields) \
+                and sum(1 for f in fields if f[1] is not None) == len(args) - 1:
+            parts, rest = [], list(args[1:])
+            for lit, name, _, _ in fields:
+                if lit:
+                    parts.append(('lit', lit))
+                if name is not None:
+                    parts.append(('fmt', rest.pop(0), -1, None))
+            return StrV(None, parts=parts)
     return compound('format', args[0], TupleV(args[1:]))
 
 
@@ -784,14 +802,14 @@ def _wiki_dump_unit():
 
             def block(k):
                 return [StrV('|-'), fstr('!', (text(tb.Obj(k)), None)),
-                        compound('format', StrV('|{}'), TupleV([compound('join', StrV('||'), cells(k))]))]
+                        fstr('|', (compound('join', StrV('||'), cells(k)), None))]
             spec = emit_loop(trace, block)
 
             def finish(path, env_, outcome):
                 if not _no_exception(path, outcome):
                     return
                 expected = [('one', StrV('{| class="featuresystem"')), ('one', StrV('!')),
-                            ('one', compound('format', StrV('!{}'), TupleV([compound('join', StrV('!!'), tb.properties)]))),
+                            ('one', fstr('!', (compound('join', StrV('!!'), tb.properties), None))),
                             ('many', tb.n, block), ('one', StrV('|}'))]
                 for nm, f in trace.matches(path, expected):
                     path.oblige('post/written/' + nm, 'post', f)
